@@ -96,6 +96,7 @@ from .errors import (
     HookError,
     NotGitRepository,
     ObjectFormatException,
+    RefFormatError,
     UnexpectedCommandError,
 )
 from .file import FileLocked
@@ -1584,7 +1585,7 @@ class ReceivePackHandler(PackHandler):
                 else:
                     try:
                         ref_status = check_command(oldsha, sha, ref)
-                    except KeyError:
+                    except (KeyError, RefFormatError):
                         ref_status = b"bad ref"
                     if ref_status != b"ok":
                         has_failure = True
@@ -1599,7 +1600,7 @@ class ReceivePackHandler(PackHandler):
                 for oldsha, sha, ref in refs:
                     try:
                         ref_status = apply_command(oldsha, sha, ref)
-                    except KeyError:
+                    except (KeyError, RefFormatError):
                         ref_status = b"bad ref"
                     if ref_status != b"ok":
                         failed[ref] = ref_status
@@ -1645,7 +1646,7 @@ class ReceivePackHandler(PackHandler):
                     ref_status = check_command(oldsha, sha, ref)
                     if ref_status == b"ok":
                         ref_status = apply_command(oldsha, sha, ref)
-                except KeyError:
+                except (KeyError, RefFormatError):
                     ref_status = b"bad ref"
                 yield (ref, ref_status)
 
